@@ -192,6 +192,7 @@ type FakeConn struct {
 	WriteFailAt  int // 1-based call that fails with WriteErr (0 = never)
 	WriteErr     error
 	WriteFailAll bool // every call from WriteFailAt on fails
+	WriteFailN   int  // number of consecutive failing calls starting at WriteFailAt (0 = one)
 	WriteBlockAt int  // 1-based call that blocks until the conn is closed (0 = never)
 	// WriteStallAt: 1-based call that stalls for WriteStallFor of virtual time and then completes
 	// (a device that drains: the stall is not interrupted by Close or a deadline; the bytes
@@ -203,6 +204,7 @@ type FakeConn struct {
 
 	CloseCalls int
 	closed     bool
+	Filtered   int // datagrams dropped by the listener's AcceptFilter before the connection existed
 	// CloseDelay: Close unblocks pending I/O at once but takes this long (virtual time) to
 	// return (a device that drains); CloseReturned counts the calls that have returned
 	CloseDelay    time.Duration
@@ -293,7 +295,7 @@ func (c *FakeConn) Write(p []byte) (int, error) {
 		}
 		return 0, ErrTimeout
 	}
-	if c.WriteFailAt != 0 && (k == c.WriteFailAt || (c.WriteFailAll && k > c.WriteFailAt)) {
+	if c.WriteFailAt != 0 && (k == c.WriteFailAt || (c.WriteFailAll && k > c.WriteFailAt) || (k > c.WriteFailAt && k < c.WriteFailAt+c.WriteFailN)) {
 		return 0, c.WriteErr
 	}
 	c.Written = append(c.Written, append([]byte{}, p...))
@@ -381,19 +383,43 @@ type FakeListener struct {
 	CloseDelay    time.Duration
 	CloseReturned int
 	AcceptErr     error // returned once by the next Accept when set
-	O             vmc.EnvObj
+	// AcceptFilter (UDP listeners): a peer becomes a connection with its first datagram that
+	// passes; datagrams that do not are dropped
+	AcceptFilter func([]byte) bool
+	O            vmc.EnvObj
 }
 
 // Connect makes a peer connect (scenario thread; visible operation).
+// (AcceptFilter is set by the pion/udp shim from udp.ListenConfig.)
 func (l *FakeListener) Connect(c net.Conn) {
 	vmc.Step("connect " + l.Name)
 	l.pending = append(l.pending, c)
 	vmc.EnvEvent(&l.O, 1)
 }
 
+// acceptable: index of the first pending peer a connection can be made for now (-1: none).
+// With an AcceptFilter (pion's UDP listener) a peer becomes a connection with its first
+// datagram that passes the filter; datagrams that do not pass are dropped.
+func (l *FakeListener) acceptable() int {
+	for i, c := range l.pending {
+		fc, ok := c.(*FakeConn)
+		if !ok || l.AcceptFilter == nil {
+			return i
+		}
+		for len(fc.In) > 0 && !l.AcceptFilter(fc.In[0]) {
+			fc.In = fc.In[1:]
+			fc.Filtered++
+		}
+		if len(fc.In) > 0 {
+			return i
+		}
+	}
+	return -1
+}
+
 // Accept implements net.Listener.
 func (l *FakeListener) Accept() (net.Conn, error) {
-	vmc.Await("accept "+l.Name, func() bool { return l.closed || len(l.pending) > 0 || l.AcceptErr != nil })
+	vmc.Await("accept "+l.Name, func() bool { return l.closed || l.acceptable() >= 0 || l.AcceptErr != nil })
 	defer vmc.EnvEvent(&l.O, 2)
 	if l.closed {
 		return nil, ErrClosed
@@ -403,8 +429,9 @@ func (l *FakeListener) Accept() (net.Conn, error) {
 		l.AcceptErr = nil
 		return nil, err
 	}
-	c := l.pending[0]
-	l.pending = l.pending[1:]
+	i := l.acceptable()
+	c := l.pending[i]
+	l.pending = append(l.pending[:i:i], l.pending[i+1:]...)
 	l.Accepted++
 	if fc, ok := c.(*FakeConn); ok {
 		fc.Handed = true
